@@ -60,16 +60,16 @@ def run(ctx):
     ctx.clause("integrated: band pixels are a set (distinct), length is the polyline length of the transformed points")
     rules.decide_equal(ctx, "FORM", f"{h.qualname} / FORM / length = sum of |P[k-1] - P[k]| over the transformed polyline", ctx.where(h), length, want_len, "polyline length")
     pix = ret[1][0]
-    is_set = pix[0] == "loopres" and pix[3] == T.call("set", ()) and pix[4][0] == "mut" and pix[4][1] == "update"
+    is_set = pix[0] == "union" and pix[1] == T.call("set", ()) and pix[2][0] == "flatmap"
     walk_ok = False
     if is_set:
-        arg = pix[4][3][0]
+        arg, L = pix[2][1], pix[2][2]
         ceil = ("mod", "math.ceil")
-        L = ("bv", pix[2])
         a0 = T.call("list", (T.call("map", (ceil, T.idx(pairs, T.sub(L, T.num(1))))),))
         a1 = T.call("list", (T.call("map", (ceil, T.idx(pairs, L))),))
         a0b, a1b = T.call("map", (ceil, T.idx(pairs, T.sub(L, T.num(1))))), T.call("map", (ceil, T.idx(pairs, L)))
-        walk_ok = T.alpha(arg) in (T.alpha(T.call(f"{MY}.walk_two_vertices", (a0, a1, lay2))), T.alpha(T.call(f"{MY}.walk_two_vertices", (a0b, a1b, lay2))))
+        rng_ok = T.alpha(pix[2][3]) == T.alpha(T.call("range", (T.num(1), T.call("len", (pairs,)))))
+        walk_ok = rng_ok and T.alpha(arg) in (T.alpha(T.call(f"{MY}.walk_two_vertices", (a0, a1, lay2))), T.alpha(T.call(f"{MY}.walk_two_vertices", (a0b, a1b, lay2))))
     ctx.check(is_set and walk_ok, "FORM", f"{h.qualname} / FORM / pixels = set union of walk_two_vertices(ceil(P[k-1]), ceil(P[k]), layers)", ctx.where(h),
               "a set, so every band pixel is counted once", f"band pixels are {T.show(T.alpha(pix))[:200]}")
 
